@@ -5,6 +5,8 @@ pub mod common;
 pub mod c01;
 pub mod c02;
 pub mod hist;
+pub mod iter;
+pub mod xsize;
 pub mod c03;
 pub mod c04;
 pub mod c06;
@@ -50,6 +52,12 @@ pub fn run(run: &Run) {
         "C17" => c17::run(run),
         "C19" => c19::run(run),
         _ => unreachable!(),
+    }
+    // CONFIG: the quick-sized exploration of the property is repeated in the checked-profile
+    // binary (debug assertions + overflow checks, what `cargo test` and debug builds run);
+    // C08, C11 and C17 start their own profile-sensitive parts, C19 has its own second binary
+    if !run.silent && crate::engine::profile() == "release" && !["C08", "C11", "C17", "C19"].contains(&run.prop.as_str()) {
+        crate::engine::child_run(run, &[]);
     }
 }
 
@@ -163,7 +171,8 @@ pub fn sub(name: &str, args: &[String], seed: u64) -> i32 {
         // lsx sub run <prop> <tier>: run the property's profile-sensitive part in this binary
         // and print the run as JSON (used by the release-profile parent, CONFIG mode)
         "run" if args.len() >= 2 => {
-            let tier = if args[1] == "thorough" { crate::engine::Tier::Thorough } else { crate::engine::Tier::Quick };
+            let own_part = ["C08", "C11", "C17"].contains(&args[0].as_str());
+            let tier = if args[1] == "thorough" && own_part { crate::engine::Tier::Thorough } else { crate::engine::Tier::Quick };
             let mut r = Run::new(&args[0], tier, seed);
             r.silent = true;
             crate::engine::start_watchdog(tier);
@@ -171,6 +180,7 @@ pub fn sub(name: &str, args: &[String], seed: u64) -> i32 {
                 "C08" => c08::iterator_part(&r),
                 "C11" => c11::explore_all(&r),
                 "C17" => c17::explore(&r),
+                id if known(id) && id != "C19" => run(&r),
                 _ => {
                     eprintln!("no child part for {}", args[0]);
                     return 2;
